@@ -468,6 +468,10 @@ func genC10(g *h.G) {
 	} else {
 		lens = append(lens, 65535, 65536, 65537)
 	}
+	// around the decoder's incremental-read chunk (maxPrealloc = 4096 bytes) and its multiples
+	for _, c := range []int{4096, 8192, 12288} {
+		lens = append(lens, c-1, c, c+1)
+	}
 	for _, l := range lens {
 		g.Count("sweep_lengths")
 		data := g.Bytes(l)
